@@ -82,6 +82,8 @@ class _BytesMeta(type):
                     if not 0 <= v <= 255:
                         raise ValueError("bytes must be in range(0, 256)")
                     segs.append(K(_b.bytes([v])))
+                elif isinstance(v, SBV) and v.bits is not None and v.bits <= 8:
+                    segs.append(BE(z3.BV2Int(z3.simplify(z3.Extract(7, 0, v.t)), False), 1))
                 else:
                     t = toint(v)
                     if c.branch(z3.Or(t < 0, t > 255)):
